@@ -19,14 +19,21 @@ pub struct Cfg {
     pub window: u32,
     pub slip: usize,
     pub size: usize,
+    /// Requests sent by the main thread, one after the other, before the
+    /// concurrent burst (they take tokens out of the bucket) ...
+    pub pre: usize,
+    /// ... and whole seconds the virtual clock is advanced between them and
+    /// the burst, so that the burst meets a bucket whose refill is due.
+    pub gap_s: u64,
 }
 
 impl Cfg {
     pub fn label(&self) -> String {
-        format!("T={} k={} rate={} window={} slip={} size={}", self.threads, self.per_thread, self.rate, self.window, self.slip, self.size)
+        let pre = if self.pre > 0 || self.gap_s > 0 { format!(" pre={} gap={}s", self.pre, self.gap_s) } else { String::new() };
+        format!("T={} k={} rate={} window={} slip={} size={}{}", self.threads, self.per_thread, self.rate, self.window, self.slip, self.size, pre)
     }
     pub fn to_json(&self) -> Value {
-        json!({"threads": self.threads, "requests_per_thread": self.per_thread, "rate": self.rate, "window": self.window, "slip": self.slip, "table_size": self.size})
+        json!({"threads": self.threads, "requests_per_thread": self.per_thread, "rate": self.rate, "window": self.window, "slip": self.slip, "table_size": self.size, "sequential_requests_before": self.pre, "idle_seconds_before_burst": self.gap_s})
     }
 }
 
@@ -39,7 +46,22 @@ pub fn configs(quick: bool) -> Vec<Cfg> {
                     if quick && (size == 7 && !(threads == 2 && per_thread == 2)) {
                         continue;
                     }
-                    v.push(Cfg { threads, per_thread, rate, window, slip, size });
+                    v.push(Cfg { threads, per_thread, rate, window, slip, size, pre: 0, gap_s: 0 });
+                }
+            }
+        }
+    }
+    // The burst meets a used bucket whose refill is due: the bucket was
+    // exhausted (or nearly) by sequential requests, then idle for 1 or 2 s.
+    for (threads, per_thread) in [(2usize, 1usize), (2, 2), (3, 1)] {
+        for (rate, window) in [(1u32, 3u32), (2, 2), (1, 2)] {
+            let cap = (rate * window) as usize;
+            for (pre, gap_s) in [(cap, 1u64), (cap, 2), (cap - 1, 1)] {
+                for slip in [0usize, 1] {
+                    if quick && slip == 1 && threads == 3 {
+                        continue;
+                    }
+                    v.push(Cfg { threads, per_thread, rate, window, slip, size: 1, pre, gap_s });
                 }
             }
         }
@@ -63,6 +85,34 @@ pub fn body(cfg: &Cfg) -> ExecReport {
     p.set_size(cfg.size).unwrap();
     server.set_rrl_params(Some(p));
     let server = Arc::new(server);
+    let observe = |server: &Server<_>, id: u16| -> Obs {
+        let req = srv::query(id, "a.t.", t::A);
+        match srv::handle(server, &req, "192.0.2.77".parse().unwrap(), true) {
+            None => Obs::Dropped,
+            Some(r) => match decode_message(&r, PtrRule::BeforePointer, true) {
+                Ok(m) if m.header.tc && m.answers.is_empty() && m.authority.is_empty() && m.additional_data().is_empty() => Obs::Slipped,
+                Ok(m) if !m.header.tc && m.answers.len() == 1 && m.header.rcode == 0 => Obs::Sent,
+                _ => Obs::Bad,
+            },
+        }
+    };
+    // Sequential prefix on the main thread, checked against the bucket rule.
+    let cap = (cfg.rate * cfg.window) as usize;
+    let mut in_use = 0usize;
+    for i in 0..cfg.pre {
+        let o = observe(&server, 0x7000 + i as u16);
+        let want_sent = in_use < cap;
+        if want_sent {
+            in_use += 1;
+        }
+        if (o == Obs::Sent) != want_sent {
+            return ExecReport { outcome: "sequential-prefix-wrong".into(), violation: Some(("sequential-prefix-wrong".into(), format!("sequential request {i} of the prefix: observed {o:?}, expected sent={want_sent}"))) };
+        }
+    }
+    if cfg.gap_s > 0 {
+        mcshim::advance_ns(cfg.gap_s * 1_000_000_000);
+        in_use = in_use.saturating_sub((cfg.rate as u64 * cfg.gap_s) as usize);
+    }
     let obs: Arc<Mutex<Vec<Obs>>> = Default::default();
     let mut hs = Vec::new();
     for th in 0..cfg.threads {
@@ -87,7 +137,7 @@ pub fn body(cfg: &Cfg) -> ExecReport {
     }
     let obs = obs.lock().unwrap().clone();
     let total = cfg.threads * cfg.per_thread;
-    let limit = (cfg.rate * cfg.window) as usize;
+    let limit = cap - in_use;
     let sent = obs.iter().filter(|o| **o == Obs::Sent).count();
     let slipped = obs.iter().filter(|o| **o == Obs::Slipped).count();
     let dropped = obs.iter().filter(|o| **o == Obs::Dropped).count();
@@ -100,7 +150,7 @@ pub fn body(cfg: &Cfg) -> ExecReport {
     } else if sent != exp_sent {
         violation = Some((
             if sent > exp_sent { "more-sent-than-limit" } else { "fewer-sent-than-limit" }.to_string(),
-            format!("{sent} responses sent, expected min({total}, {limit}) = {exp_sent}"),
+            format!("{sent} responses of the burst sent, expected min({total} requests, {limit} tokens available) = {exp_sent}"),
         ));
     } else if cfg.slip == 0 && (dropped != exp_limited || slipped != 0) {
         violation = Some(("slip0-not-dropped".to_string(), format!("slip 0: dropped={dropped} slipped={slipped}, expected {exp_limited} dropped")));
